@@ -196,7 +196,7 @@ Definition out_eqb (a b : out) : bool :=
 
 (** transaction manager: current epoch and next transaction id *)
 Record tm := mkTm { tm_epoch : Z; tm_next : Z }.
-Definition tm0 : tm := mkTm 0 1.
+Definition tm0 : tm := mkTm 0 2.   (* TransactionManager::new: epoch 0, next_tx_id 2 (1 = TxId::SYSTEM) *)
 
 Definition set_props_node (s : store) (id : Z) (ps : props) : store :=
   fold_left (fun s kv => st_set_node_prop s id (fst kv) (snd kv)) ps s.
@@ -300,18 +300,19 @@ Section Db.
     end.
 
   (** observations of one session: results of the operations, store before the end, store after reopen *)
-  Record sobs := mkObs { so_outs : list out; so_before : store; so_after : rres store }.
+  Record sobs := mkObs { so_outs : list out; so_before : store; so_disk : disk; so_after : rres store }.
 
   Fixpoint run_sessions (cfg : wcfg) (st : dbstate) (ss : list session) : list sobs * rres dbstate :=
     match ss with
     | [] => ([], ROk st)
     | (os, e) :: r =>
         let '(st1, outs) := run_ops cfg st os in
-        match db_open (end_disk cfg st1 e) with
-        | RErr => ([mkObs outs (db_store st1) RErr], RErr)
+        let d := end_disk cfg st1 e in
+        match db_open d with
+        | RErr => ([mkObs outs (db_store st1) d RErr], RErr)
         | ROk st2 =>
             let '(obs, fin) := run_sessions cfg st2 r in
-            (mkObs outs (db_store st1) (ROk (db_store st2)) :: obs, fin)
+            (mkObs outs (db_store st1) d (ROk (db_store st2)) :: obs, fin)
         end
     end.
 End Db.
